@@ -18,8 +18,17 @@ SHIELD = SYN + "AsyncShieldCancellation"
 TRACE = "httpcore._trace.Trace"
 
 
+_LOCK_NAMES: dict = {}
+
+
 def lock_id(ref) -> str:
-    return str(z3.simplify(ref.t))
+    """stable (per process) name of a lock object: id of the simplified reference term"""
+    t = z3.simplify(ref.t)
+    i = t.get_id()
+    n = _LOCK_NAMES.get(i)
+    if n is None:
+        n = _LOCK_NAMES[i] = str(t)
+    return n
 
 
 class LockCtx(CtxHandler):
